@@ -393,16 +393,12 @@ def r4(ctx):
             cs[0][2][2][1][0] == "param" and ib.guard(cs[0][0]) == frozenset([frozenset()])
         ctx.check("InstrumentState::" + fn, ok, "forwards the report unchanged to this instrument's own Orders",
                   got=[render(c[2]) for c in cs], key="forward")
-    sb = ctx.fibody(name="update_from_account_snapshot", self_adt=IS, trait="")
-    cs = [(bi, t, tm) for bi, t, tm in sb.real_calls() if mir.short(tm[1]) == "InstrumentState::update_from_order_snapshot"]
-    ok = len(cs) == 1 and render(cs[0][2][2][0]) == "self" and \
-        render(cs[0][2][2][1]) == "Snapshot::Snapshot{0: Iterator::next(snapshot.orders).as:Some.0}"
-    if ok:
-        g = sb.guard(cs[0][0])
-        ok = len(g) == 1 and [mir.render_atom(a) for a in next(iter(g))] == ["Iterator::next(snapshot.orders) is Some"]
+    sd = ctx.find(name="update_from_account_snapshot", self_adt=IS, trait="")
+    vs = [v for v in common.elementwise_views(ctx, sd) if v["source"] == "snapshot.orders"]
+    ok = len(vs) == 1 and vs[0]["calls"] == [("InstrumentState::update_from_order_snapshot(self, Snapshot::Snapshot{0: $x})", "true")]
     ctx.check("InstrumentState::update_from_account_snapshot", ok,
               "EVERY order report of the snapshot (active or not, unfiltered, unmodified) goes through update_from_order_snapshot",
-              got=[(render(c[2])[:200], render_guard(sb.guard(c[0]))[:160]) for c in cs], key="each-order")
+              got=[(v["source"], v["calls"]) for v in common.elementwise_views(ctx, sd)], key="each-order")
 
 
 def r5(ctx):
